@@ -25,6 +25,8 @@ def source_text(kind, seed):
     from . import doc_common as dc
 
     rng = random.Random(seed)
+    if kind == "corpus":         # texts that failed once (corpus/C05/known.json), run first
+        return json.load(open(common.ROOT / "corpus" / "C05" / "known.json"))[seed]
     if kind == "doc":
         return dc.Render(rng).doc(dc.Gen(rng).doc())
     if kind == "trig":
@@ -260,6 +262,8 @@ def run(chk: common.Check):
     base = chk.seed * 10_000_000
     items = [("doc", base + i) for i in range(n)] + [("trig", base + n + i) for i in range(n)] + [("fuzz", base + 2 * n + i) for i in range(2 * n)]
     corpus = common.ROOT / "corpus" / "C05" / "known.json"
+    if corpus.exists():
+        items = [("corpus", i) for i in range(len(json.load(open(corpus))))] + items
     r1, c1 = guard.guarded_run(scratch, "harness.c05:tree_worker", items, nproc=16, hard_timeout=120,
                                stop_when=lambda r, c: len(c) >= 2 or sum(len(x[0]) for x in r) >= 6)
     bad, hist = [], Counter()
